@@ -67,7 +67,8 @@ MATRIX = _matrix()
 
 def streams(ctx):
     return [("matrix", len(MATRIX)), ("random", ctx.scale(200, 5000)), ("argparse_return", ctx.scale(150, 3000)),
-            ("longdoc", ctx.scale(80, 1500)), ("shapes", ctx.scale(150, 3000)), ("big", ctx.scale(30, 500)), ("similar", ctx.scale(100, 1500))]
+            ("longdoc", ctx.scale(80, 1500)), ("shapes", ctx.scale(150, 3000)), ("big", ctx.scale(30, 500)), ("similar", ctx.scale(100, 1500)),
+            ("body_wins", ctx.scale(150, 2500))]
 
 
 def _snap_ir(intermediate_repr):
@@ -236,6 +237,17 @@ def gen_case(ctx, stream, idx):
         # nested / single-member / spaced-member types, delimiter characters in str defaults, punctuation in prose
         return irgen.rand_ir(r, type_kinds=CORE_TKINDS + ("nested", "nested", "str", "literaldq"), nparams=r.randint(1, 6),
                              default_kinds=CORE_DKINDS + ("strodd", "strodd"), doc_kinds=("plain", "punct", "punct"))
+    if stream == "body_wins":
+        # a multi-word str default behind a description long enough for the wrap column to fall inside the default's
+        # text in the docstring: the target also records the default in code (class attribute, signature, add_argument)
+        # and that record is the one that counts
+        ir = irgen.rand_ir(r, type_kinds=("str", "str", "int"), nparams=r.randint(1, 3), default_kinds=("strspace", "int"),
+                           all_defaults=True, with_return=False)
+        for p in ir["params"].values():
+            if p["typ"] == "str":
+                p["default"] = r.choice(("x y", "nightly build of the day", "hello brave new world", "a b c d e f g"))
+                p["doc"] = irgen.rand_doc(r, r.randint(9, 16), stop=False)
+        return ir
     if stream == "similar":
         return irgen.similar_ir(r, type_kinds=CORE_TKINDS, default_kinds=CORE_DKINDS)
     if stream == "big":
